@@ -18,7 +18,7 @@ func init() {
 	register(&Property{
 		ID:    "C14",
 		Level: "other",
-		Explanation: "Decides the token-class agreement and directive-position clauses: (R-FMTCLASS) the lexer has token classes whose interior is taken verbatim and may contain delimiter characters — each is found as a rune constant that, at the start of a token, hands control to a scanning closure, together with the rune that closure stops at (today: ';' up to line break, '\"' up to '\"'); the oracle is that every such opening rune is also a distinguished case of the formatter's main loop with a copy-through loop (writing A[i] unchanged) that stops at the same terminator: a formatter without a '\"' state necessarily re-spaces the inside of string literals; " +
+		Explanation: "Decides the token-class agreement and directive-position clauses: (R-FMTCLASS) the lexer has token classes whose interior is taken verbatim and may contain delimiter characters — each is found as a rune constant that, at the start of a token, hands control to a scanning closure, together with the rune that closure stops at (today: ';' up to line break, '\"' up to '\"'); the oracle is that every such opening rune is also a distinguished case of the formatter's main loop with a copy-through loop (writing A[i] unchanged) that stops at the same terminator: a formatter without a '\"' state necessarily re-spaces the inside of string literals; the copy-through state is entered for every occurrence of the opening rune the main loop meets, whatever the formatter's own state (within one iteration every path from the top of the body back to the loop head enters the copy loop, or has seen 'current rune != opener', or took a case decided by the current rune alone); the copy loops are left only on the terminator or at the end of the input; " +
 			"(R-SPACE) lexer and formatter classify separators with the same predicate (unicode.IsSpace on the current rune), the lexer's delimiter set is the constant \"()[];,\" and the formatter's bracket pairs are drawn from it; (R-DIRFIRST) in parseConfig every write of an option executes only for a token of type comment inside a loop that leaves at the first non-comment token, and parseAstTree drops all comment tokens (keeps a token only under typ != comment, then truncates) before check and parsing, so no parser function ever sees one. " +
 			"NOT decided: that arbitrary re-layout yields the same token sequence, that the formatter preserves every token outside verbatim classes, idempotence of formatting.",
 		Run:       runC14,
@@ -149,6 +149,8 @@ func ruleFmtClass(w *World, r *Report) {
 	}
 	// formatter classes
 	formatter := map[int64][]int64{}
+	fmtCopy := map[int64]map[*ssa.BasicBlock]bool{}
+	fmtRune := map[int64]ssa.Value{}
 	var extraExits []string
 	// main loop header: the loop header that dominates every other loop header
 	var hdr *ssa.BasicBlock
@@ -283,6 +285,8 @@ func ruleFmtClass(w *World, r *Report) {
 			}
 			sort.Slice(terms, func(i, j int) bool { return terms[i] < terms[j] })
 			formatter[c] = terms
+			fmtCopy[c] = copySet
+			fmtRune[c] = bo.X
 			// the copy loop is left only by a terminator or by the end of the input
 			for _, x := range inner {
 				if !copySet[x] {
@@ -367,6 +371,77 @@ func ruleFmtClass(w *World, r *Report) {
 		}
 		r.Check(same, rule, w.Pos(fm.Pos()), "IndentByParentheses", fmt.Sprintf("lexer class %q…%q; formatter state %q", rune(k), runes(lt), runes(ft)),
 			"the formatter copies this class through verbatim up to the same terminator", fmt.Sprintf("the formatter has no copy-through state for tokens opened by %q (or stops elsewhere): their interior is re-spaced or split", rune(k)))
+		// the copy-through state is entered for EVERY occurrence of the opening rune the main loop comes across,
+		// whatever the formatter's own state (previous token class, indentation): within one iteration of the main
+		// loop, every path from the top of the body back to the loop head either enters the copy loop, or has seen
+		// "current rune != opener", or took a case that is decided by the current rune alone (another class).
+		if cs, okc := fmtCopy[k]; okc && same {
+			cur := fmtRune[k]
+			isCur := func(v ssa.Value) bool { return v == cur || sameValueShape(unwrapConv(v), unwrapConv(cur)) }
+			excused := func(from, to *ssa.BasicBlock) bool {
+				for _, f := range factsAtEdgeTo(from, to) {
+					switch c := f.Cond.(type) {
+					case *ssa.BinOp:
+						if c.Op == token.EQL && isCur(c.X) {
+							if v, okv := constInt(c.Y); okv && ((v == k && !f.Truth) || (v != k && f.Truth)) {
+								return true
+							}
+						}
+					case *ssa.Lookup:
+						if f.Truth && isCur(c.Index) {
+							return true
+						}
+					case *ssa.Call:
+						// a classifier of the current rune alone: a unicode predicate, or a function / closure of the
+						// rune that captures nothing
+						if f.Truth && len(c.Call.Args) == 1 && isCur(c.Call.Args[0]) {
+							if strings.HasPrefix(calleeFullName(&c.Call), "unicode.") {
+								return true
+							}
+							if callee := c.Call.StaticCallee(); callee != nil && callee.Package() == fm.Package() && len(callee.FreeVars) == 0 && len(callee.Params) == 1 {
+								return true
+							}
+						}
+					}
+				}
+				return false
+			}
+			var body *ssa.BasicBlock
+			for _, sx := range hdr.Succs {
+				if reachable(sx, hdr) {
+					body = sx
+				}
+			}
+			var bad *ssa.BasicBlock
+			if body != nil {
+				seen := map[*ssa.BasicBlock]bool{body: true}
+				stack := []*ssa.BasicBlock{body}
+				for len(stack) > 0 && bad == nil {
+					x := stack[len(stack)-1]
+					stack = stack[:len(stack)-1]
+					for _, sx := range x.Succs {
+						if cs[sx] || excused(x, sx) {
+							continue
+						}
+						if sx == hdr || len(sx.Succs) == 0 {
+							bad = x
+							break
+						}
+						if !seen[sx] {
+							seen[sx] = true
+							stack = append(stack, sx)
+						}
+					}
+				}
+			}
+			where := w.Pos(fm.Pos())
+			if bad != nil && len(bad.Instrs) > 0 {
+				where = w.InstrPos(bad.Instrs[len(bad.Instrs)-1])
+			}
+			r.Check(body != nil && bad == nil, rule, where, "IndentByParentheses", fmt.Sprintf("entry of the copy-through state for %q", rune(k)),
+				"every occurrence of the opening rune the main loop meets enters the copy-through state, whatever the formatter's own state",
+				fmt.Sprintf("an iteration of the main loop can end without entering the copy-through state although the current rune may be %q (the entry also depends on the formatter's own state, or comes after a case that is not decided by the rune alone): such a token is re-spaced or split", rune(k)))
+		}
 	}
 }
 
@@ -527,6 +602,36 @@ func ruleSpace(w *World, r *Report) {
 			pairs = append(pairs, s)
 		}
 	})
+	if len(pairs) == 0 {
+		// the same brackets as rune constants: keys of a map filled with constants, or the runes a one-parameter
+		// predicate closure of the formatter compares its parameter with
+		seen := map[rune]bool{}
+		EachInstr(fm, func(in ssa.Instruction) {
+			if mu, ok := in.(*ssa.MapUpdate); ok {
+				if cv, okc := constInt(mu.Key); okc {
+					seen[rune(cv)] = true
+				}
+			}
+		})
+		for _, an := range fm.AnonFuncs {
+			if len(an.Params) != 1 || len(an.FreeVars) != 0 || an.Signature.Results().Len() != 1 {
+				continue
+			}
+			if bt, okb := an.Params[0].Type().Underlying().(*types.Basic); !okb || bt.Kind() != types.Int32 {
+				continue
+			}
+			EachInstr(an, func(in ssa.Instruction) {
+				if bo, ok := in.(*ssa.BinOp); ok && bo.Op == token.EQL && unwrapConv(bo.X) == ssa.Value(an.Params[0]) {
+					if cv, okc := constInt(bo.Y); okc {
+						seen[rune(cv)] = true
+					}
+				}
+			})
+		}
+		for c := range seen {
+			pairs = append(pairs, string(c))
+		}
+	}
 	sort.Strings(pairs)
 	okPairs := len(pairs) >= 1
 	for _, p := range pairs {
@@ -690,6 +795,18 @@ var c14Witnesses = []Witness{
 		{File: "parser.go", Old: "		if t.typ != comment {\n			break\n		}\n		cmt := strings.TrimSpace(t.val)", New: "		if t.typ != comment {\n			continue\n		}\n		cmt := strings.TrimSpace(t.val)"}}},
 	{Name: "comments-kept-for-infix", Rule: "R-DIRFIRST", Edits: []Edit{
 		{File: "parser.go", Old: "		if t.typ != comment {\n			p.tokens[n] = t\n			n++\n		}", New: "		if t.typ != comment || p.isInfixNotation() {\n			p.tokens[n] = t\n			n++\n		}"}}},
+	{Name: "formatter-string-entry-depends-on-previous-token", Rule: "R-FMTCLASS", Edits: []Edit{
+		{File: "util.go", Old: "		case c == '\"':\n			// copy string literals through verbatim", New: "		case c == '\"' && prev != normal:\n			// copy string literals through verbatim"}},
+		Doc: "seeded change C14-g: a literal directly after another literal (or at the start of the text) is re-spaced"},
+	{Name: "formatter-string-entry-tested-after-state", Rule: "R-FMTCLASS", Edits: []Edit{
+		{File: "util.go", Old: "		case c == '\"':\n			// copy string literals through verbatim", New: "		case prev != comment && c == '\"':\n			// copy string literals through verbatim"}}},
+	{Name: "formatter-comment-entry-only-at-depth-zero", Rule: "R-FMTCLASS", Edits: []Edit{
+		{File: "util.go", Old: "		case c == ';':\n			if prev == comment {", New: "		case c == ';' && indent >= 0:\n			if prev == comment {"}}},
+	{Name: "benign-formatter-string-case-reloads-rune", Benign: true, Edits: []Edit{
+		{File: "util.go", Old: "		case c == '\"':\n			// copy string literals through verbatim", New: "		case A[i] == '\"':\n			// copy string literals through verbatim"}}},
+	{Name: "benign-formatter-string-case-first", Benign: true, Edits: []Edit{
+		{File: "util.go", Old: "		switch {\n		case left[c]:\n			appendLeft(c, prev, indent)", New: "		if c == '\"' {\n			appendRune(c, prev, indent)\n			for i++; i < len(A); i++ {\n				sb.WriteRune(A[i])\n				if A[i] == '\"' {\n					break\n				}\n			}\n			prev = normal\n			continue\n		}\n		switch {\n		case left[c]:\n			appendLeft(c, prev, indent)"},
+		{File: "util.go", Old: "		case c == '\"':\n			// copy string literals through verbatim\n			appendRune(c, prev, indent)\n			for i++; i < len(A); i++ {\n				sb.WriteRune(A[i])\n				if A[i] == '\"' {\n					break\n				}\n			}\n			prev = normal\n", New: ""}}},
 	{Name: "benign-formatter-string-loop-respelled", Benign: true, Edits: []Edit{
 		{File: "util.go", Old: "			for i++; i < len(A); i++ {\n				sb.WriteRune(A[i])\n				if A[i] == '\"' {\n					break\n				}\n			}\n			prev = normal", New: "			i++\n			for i < len(A) {\n				ch := A[i]\n				sb.WriteRune(ch)\n				if ch == '\"' {\n					break\n				}\n				i++\n			}\n			prev = normal"}}},
 }
